@@ -72,6 +72,30 @@ impl Decoder {
     }
 }
 
+/// Verification hook: the C API decoder object (everything behind the
+/// `extern "C"` functions except string/pointer conversion and alist parsing).
+#[cfg(feature = "verif-hooks")]
+#[derive(Debug)]
+pub struct VerifCDecoder(Decoder);
+
+#[cfg(feature = "verif-hooks")]
+impl VerifCDecoder {
+    /// Builds the C API decoder object from its parts.
+    pub fn new(decoder: Box<dyn LdpcDecoder>, puncturer: Option<Puncturer>) -> VerifCDecoder {
+        VerifCDecoder(Decoder { decoder, puncturer })
+    }
+
+    /// What `ldpc_toolbox_decoder_decode_f64` runs after converting its pointers.
+    pub fn decode_f64(&mut self, output: &mut [u8], llrs: &[f64], max_iterations: u32) -> i32 {
+        self.0.decode_f64(output, llrs, max_iterations)
+    }
+
+    /// What `ldpc_toolbox_decoder_decode_f32` runs after converting its pointers.
+    pub fn decode_f32(&mut self, output: &mut [u8], llrs: &[f32], max_iterations: u32) -> i32 {
+        self.0.decode_f32(output, llrs, max_iterations)
+    }
+}
+
 #[unsafe(no_mangle)]
 unsafe extern "C" fn ldpc_toolbox_decoder_ctor(
     alist_file_path: *const c_char,
